@@ -153,7 +153,8 @@ Proof.
     + exfalso. apply Nat.ltb_ge in L. pose proof (launch_idx_lt c s Hn Hre i Em). lia.
   - right. destruct (polling (aux s)) eqn:Ep.
     + enabled (LPoll i true). unfold step. cbn [step0]. rewrite Em, Nat.eqb_refl. discriminate.
-    + enabled (LGateCtx i). unfold step. cbn [step0]. rewrite Em, Nat.eqb_refl, Hc, Ep. cbn. discriminate.
+    + enabled (LGateCtx i). unfold step. cbn [step0]. rewrite Em, Nat.eqb_refl, Hc, Ep. cbn.
+      destruct (errq s); discriminate.
   - right. enabled (LGateDecide i). unfold step. cbn [step0]. rewrite Em, Nat.eqb_refl.
     destruct (errq s); discriminate.
   - right. enabled LReapCtx. unfold step. cbn [step0]. rewrite Em, Hc. discriminate.
